@@ -99,6 +99,67 @@ theorem C20_trichotomy_partial (f : Field) (c : NumClass) (o : Output) (k : Kern
   | crash e => rw [he] at ht; simp [Outcome.ok] at ht
   | nonfinite => rw [he] at ht; simp [Outcome.ok] at ht
 
+/-- `main` for any number of numeric inputs given at once (one value class per input) -/
+def mainOutcomeMulti (inputs : List (Field × NumClass)) (o : Output) (k : Kernel) : Outcome :=
+  match composeOutcome (inputs.map fun fc => expected fc.1 fc.2) with
+  | .report =>
+    match wrapOutput Pmn.Const.outputCaught o with
+    | some r => r
+    | none => wrapKernel Pmn.Const.kernelCaught k
+  | r => r
+
+theorem composeOutcome_ok (os : List Outcome) (h : ∀ o ∈ os, Outcome.ok o = true) : Outcome.ok (composeOutcome os) = true := by
+  unfold composeOutcome
+  split
+  · rfl
+  · cases hf : os.find? (· != .report) with
+    | none => rfl
+    | some o => exact h o (List.mem_of_find?_eq_some hf)
+
+/-- **trichotomy for several inputs at once**: whatever value classes any number of the numeric inputs hold together, the
+outcome is the usage error, the diagnostic or the report (composition rule `composeOutcome`: a usage error of any input
+first, else the first diagnostic) -/
+theorem C20_trichotomy_multi (inputs : List (Field × NumClass)) (o : Output) (k : Kernel)
+    (ho : ∀ e, o = .raises e → e ∈ outputRaises)
+    (h : ∀ e, k = .raises e → e ∈ kernelRaises) : Outcome.ok (mainOutcomeMulti inputs o k) = true := by
+  unfold mainOutcomeMulti
+  have hc : Outcome.ok (composeOutcome (inputs.map fun fc => expected fc.1 fc.2)) = true := by
+    apply composeOutcome_ok
+    intro x hx
+    obtain ⟨fc, _, rfl⟩ := List.mem_map.mp hx
+    exact C20_table fc.1 fc.2
+  cases he : composeOutcome (inputs.map fun fc => expected fc.1 fc.2) with
+  | report =>
+    simp only
+    rcases C20_output_guard o ho with h0 | h0
+    · rw [h0]; simp only
+      rcases C20_kernel_guard k h with h1 | h1 <;> rw [h1] <;> rfl
+    · rw [h0]; rfl
+  | usage => rfl
+  | diag => rfl
+  | crash e => rw [he] at hc; simp [Outcome.ok] at hc
+  | nonfinite => rw [he] at hc; simp [Outcome.ok] at hc
+
+/-- a run with all inputs accepted is a report only if each of them is of a harmless class -/
+theorem C20_multi_accepted_harmless (inputs : List (Field × NumClass))
+    (h : composeOutcome (inputs.map fun fc => expected fc.1 fc.2) = .report) :
+    ∀ fc ∈ inputs, harmless fc.1 fc.2 = true := by
+  intro fc hfc
+  apply C20_accepted_harmless
+  unfold composeOutcome at h
+  split at h
+  · cases h
+  · cases hf : (inputs.map fun fc => expected fc.1 fc.2).find? (· != .report) with
+    | some o =>
+      rw [hf] at h
+      simp only at h
+      have := List.find?_some hf
+      rw [h] at this
+      simp at this
+    | none =>
+      have := List.find?_eq_none.mp hf (expected fc.1 fc.2) (List.mem_map.mpr ⟨fc, hfc, rfl⟩)
+      simpa using this
+
 /-- the former `main` had no clause around the compute loop: a kernel exception escaped -/
 theorem C20_defect_witness : wrapKernel [] (.raises .ZeroDivisionError) = .crash .ZeroDivisionError := by
   decide
